@@ -41,6 +41,14 @@ PROP = dict(
         "WriteBigInt with a representable value (width >= 1), WriteBigUint with a non-negative value, source bit strings that "
         "hold their bits; outside them the model is compared with Go but the specification is not stated",
         "BinaryString / Print are not modelled",
+        "specification = transcription of the implementation for a few operations: WriteInt with a value that is not "
+        "representable in the width (sign bit + truncated magnitude, as the code does), Grow (capacity + n), Append "
+        "(capacity raised to fit), Copy (cursor reset); for these `op_refines` says model = model, the independent content "
+        "being only that the byte-level buffer arithmetic implements them without panic and keeps the invariant",
+        "WriteUnary is specified for n < 2^63 (Op.WF): for a uint n >= 2^63 the Go loop bound int(n) is negative and a single "
+        "0 is written (modelled, theorem writeUnary_huge_witness, corpus line)",
+        "theorems named *_witness and the `example`s are closed literals evaluated by `decide`: tests that pin the old / "
+        "limit behaviour, not universally quantified statements",
     ],
     level="proof",
     level_text="Lean 4 theorems about a byte-level model of boc.BitString (buffer bytes, cap/len/rCursor, Go's byte "
@@ -61,7 +69,7 @@ PROP = dict(
                "Fift-hex acceptance were reproduced on the Go code, repaired by fix: commits, and the model describes the "
                "repaired code; witnesses of the old behaviour are theorems about the `...Old` definitions and corpus lines. "
                "Also theorems: ToFiftHex = hex text of the abstract bits and BitStringFromFiftHex(ToFiftHex s) = the same bits for every length and content (fifthex_roundtrip); the first ceil(len/8) buffer bytes are the canonical packing of the bits (canonical_buffer). GetTopUppedArray = canonical topped-up bytes, SetTopUppedArray inverts it, and the repaired Cell.setTopUppedArray establishes the invariant with capacity 1023 for any parsed data (parsed_cell_inv). CopyRemaining = unread bits + unread references with the source cursors unchanged (copyRemaining_spec). Round 2: int arguments of any sign (zop_refines, zops_sequence, negative_read_errs), On/Off (onOff_refines), the exact language of BitStringFromFiftHex incl. lower case and every malformed text (fifthex_parse_spec), SetTopUppedArray on any tagged array and its error path, and cell-level sequences over a heap of cells with explicit aliasing (cell_ops_sequence, cell_ref_limits, cell_nextRef_resets_child) and cell_no_panic (no cell-level sequence without Grow/Append panics: CopyRemaining's internal panics are unreachable also with shared / self-referencing cells).",
-    level_note="trusted: Lean kernel; the hand model's fidelity to boc/bitString.go and boc/cell.go is checked, not proved "
+    level_note="layering is a theorem: TongoProofs/Lemmas/BitsBridge*.lean prove that the ideal-level interfaces of the other slices — Tlb.Builder / Tlb.Slice (C03/C04), Tlb.Rd (C08), Json.toFift/fromFift (C20), and the (bits, refs) cell view — are exactly Op.spec / ZOp.spec / fiftSpec / fiftParse / MCell of this slice (operation by operation, same errors), and compose them with op_refines down to the byte-level model (builder_vs_go_write, slice_vs_go_readUint); the two places where those models disagreed with the repaired Go code at the start of round 4 (Builder.writeInt width 0/1, negative widths in TlbRead) are recorded there for their owners. Trusted: Lean kernel; the hand model's fidelity to boc/bitString.go and boc/cell.go is checked, not proved "
                "(>= 15 000 compared lines per quick run, 196 000 thorough, incl. the exhaustive offset x width grid); "
                "translator X4 for minBitsRequired; Go runtime semantics listed in trusted_base",
     technique="refinement proof (abstraction function + invariant) in Lean 4, per-operation simulation lemmas, induction "
